@@ -15,7 +15,7 @@ if grep -qE "^test result: FAILED|error\[|error:" "$W/.test.log"; then echo "RES
 out="RESULT $name tests[$(echo $tests | grep -o '[0-9]* passed; [0-9]* failed' | tr '\n' ',')]"
 for p in "$@"; do
   log="$W/.check-$p.log"
-  VERIF_REPO="$W" VERIF_SEED=${VERIF_SEED:-1} /verif/run.sh "$p" ${TIER:-quick} >"$log" 2>&1
+  JMV_OUT_DIR="$W/.jmv-out" VERIF_REPO="$W" VERIF_SEED=${VERIF_SEED:-1} /verif/run.sh "$p" ${TIER:-quick} >"$log" 2>&1
   rc=$?
   first=$(grep -m1 -A1 "^VIOLATION" "$log" | tail -1 | cut -c1-220)
   case $rc in
